@@ -97,6 +97,7 @@ def build(verbose=False) -> tuple[bool, str]:
         from harness import reflect
         reflect.write_consts()
         reflect.write_kernels()
+        reflect.write_basisforms()
         bad = scan_forbidden()
         if bad:
             return False, "forbidden constructs: " + "; ".join(bad)
